@@ -117,9 +117,13 @@ def _perform_decrypt(obj: EncryptionData, registry: JWERegistry) -> None:
     if len(cek) * 8 != enc.cek_size:  # pragma: no cover
         raise InvalidCEKLengthError(f"A key of size {enc.cek_size} bits MUST be used")
 
-    aad = json_b64encode(obj.protected)
-    if isinstance(obj, BaseJSONEncryption) and obj.aad:
-        aad = aad + b"." + urlsafe_b64encode(obj.aad)
+    # RFC 7516 section 5.2, step 14: the Additional Authenticated Data is the *received*
+    # Encoded Protected Header (and encoded JWE AAD), not a re-serialization of the parsed header
+    aad = obj.base64_segments.get("aad")
+    if aad is None:
+        aad = json_b64encode(obj.protected)
+        if isinstance(obj, BaseJSONEncryption) and obj.aad:
+            aad = aad + b"." + urlsafe_b64encode(obj.aad)
 
     msg = enc.decrypt(ciphertext, tag, cek, iv, aad)
     if "zip" in obj.protected:
